@@ -36,11 +36,14 @@ def main(tier):
     optcorr.run(chk, "opt/triples", triples, cfg, differs, share=True)
     optcorr.run(chk, "opt/repeated-atom", list(cases.repeat_shapes(cases.mergeable_atoms())), cfg, differs, share=True)
     optcorr.run(chk, "opt/random-shared", rnd, cfg, differs, share=True)
+    # the same shapes over 9, 10 and then over "9", "10": constants that print the same and are ordered differently
+    pa_values = [8, 9, 9.5, 10, 11, "1", "10", "5", "9", "95", "a", None]
+    optcorr.run(chk, "opt/print-alike-constants", cases.printalike_trees(), cfg, optcorr.values_differ(pa_values), share=True)
     ev_preds = atoms + [("not", a) for a in atoms] + [(op, a, b) for op in ("and", "or", "xor") for a, b in itertools.product(atoms[:30], atoms[10:25])]
     evalcorr.run(chk, "eval/atoms+pairs", ev_preds, cases.SCALAR_VALUES)
     chk.rule = (
         "grid of %d scalar atoms (eq/ne/ge/gt/le/lt at 1,2,3; four range forms; in/not_in at 6 sets incl. empty and singleton; none/truthy; type tests incl. "
-        "overlapping class tuples; two function atoms; constants): every a, ~a, a.b, ~a.b, a.~b, ~(a.b) for . in &,|,^; three-atom shapes; random shared trees. "
+        "overlapping class tuples; two function atoms; constants): every a, ~a, a.b, ~a.b, a.~b, ~(a.b) for . in &,|,^; three-atom shapes; random shared trees; pair shapes over 9, 10 interleaved with the same shapes over '9', '10'; every stream re-run over digit-string twins of its constants. "
         "Each case: model optimizeT vs predicate.optimize (structural) and optimize(p) vs p on %d values (each constant, half-way points, beyond both ends, "
         "True/False/None/str) restricted to values on which every atom of the original is defined. non-trivial = distinct inputs changed by optimize."
         % (len(atoms), len(cases.SCALAR_VALUES))
